@@ -232,7 +232,11 @@ func (c *caseT) round3(m *member) {
 		sig, keySym, err := tss.SignComplaint(m.r1.OneTimePubKey, o.r1.OneTimePubKey, m.r1.OneTimePrivKey)
 		fx.Must(err)
 		dev := ""
-		switch r.Intn(3) {
+		foreign := false
+		switch r.Intn(4) {
+		case 3: // a second complaint in ANOTHER (honest) member's name appended to the message: ValidateBasic must reject it
+			dev = "foreign-complainant"
+			foreign = true
 		case 0: // false complaint: valid signature, true key, (possibly) valid share
 			dev = "false-complaint"
 		case 1: // wrong key-sym
@@ -246,12 +250,25 @@ func (c *caseT) round3(m *member) {
 		}
 		c.tr.Tag("dev-r3-" + dev)
 		cp := tsstypes.Complaint{Complainant: m.id, Respondent: o.id, KeySym: keySym, Signature: sig}
-		msg := tsstypes.NewMsgComplain(c.gid, []tsstypes.Complaint{cp}, sender)
+		cps := []tsstypes.Complaint{cp}
+		if foreign {
+			// the framed member: someone else than the sender and the respondent, if there is one
+			for _, x := range c.ms {
+				if x.id != m.id && x.id != o.id {
+					cps = append(cps, tsstypes.Complaint{Complainant: x.id, Respondent: o.id, KeySym: keySym, Signature: sig})
+					break
+				}
+			}
+		}
+		msg := tsstypes.NewMsgComplain(c.gid, cps, sender)
 		e := fx.Try(msg.ValidateBasic)
 		if e != "" {
 			return
 		}
-		cout := []any{c.complaintOut(cp)}
+		cout := []any{}
+		for _, x := range cps {
+			cout = append(cout, c.complaintOut(x))
+		}
 		e = fx.Atomically(c.ctx, func(ctx sdk.Context) error { _, err := c.tms.Complain(ctx, msg); return err })
 		if e == "" {
 			m.r3Sent = true
